@@ -2,7 +2,7 @@
    Model/Pickle.v: the reduce protocol as an abstract machine; yaml_ops = represent_object + construct_python_object(_apply), pickle_ops = protocol 2. *)
 From Coq Require Import List Bool Arith String.
 Import ListNotations.
-Require Import Pickle PickleLemmas.
+Require Import Pickle PickleLemmas PickleState PickleStateLemmas.
 
 (* KIND C17_yaml_eq_pickle_commuting : U *)
 (* for EVERY reduce tuple (new/apply, any arguments, any list and dict items) whose state is None, a dict, or a truthy object: the YAML rebuild applies the same
@@ -24,6 +24,27 @@ Example C17_falsy_state_refuted :
   let r := {| newobj := true; args := []; st := StOther false; listitems := None; dictitems := None |} in
   b_state (build (pickle_ops r)) = Some (StOther false) /\ b_state (build (yaml_ops r)) = None.
 Proof. exact l_falsy_state_refuted. Qed.
+
+(* KIND C17_state_applied_as_pickle_does : U *)
+(* the BUILD step (Model/PickleState.v: set_python_instance_state vs pickle's load_build), for EVERY instance kind (with or without __setstate__, with
+   or without __dict__) and every state shape (a dictionary; a pair of a dictionary or None and a slot dictionary; each part empty or not): whenever
+   pickle can apply the state at all, YAML performs exactly the same observable operations - __setstate__(state), or entries written into
+   instance.__dict__ directly (never through setattr: classes that guard attribute assignment are restored), then setattr for the slot items *)
+Theorem C17_state_applied_as_pickle_does : forall i s, ~ In AttrError (pickle_apply i s) -> yaml_apply i s = pickle_apply i s.
+Proof. exact l_state_applied_as_pickle_does. Qed.
+Eval vm_compute in "ASSUME:C17_state_applied_as_pickle_does"%string. Print Assumptions C17_state_applied_as_pickle_does.
+(* KIND C17_state_usual_instances : U *)
+Theorem C17_state_usual_instances : forall i s, has_dict i = true \/ has_setstate i = true \/ dict_part s = DNone -> yaml_apply i s = pickle_apply i s.
+Proof. exact l_state_usual_instances. Qed.
+Eval vm_compute in "ASSUME:C17_state_usual_instances"%string. Print Assumptions C17_state_usual_instances.
+(* KIND C17_slots_only_difference : F *)
+(* the only difference: a dictionary state (even an empty one) for an instance without __dict__ makes pickle raise AttributeError; YAML uses setattr *)
+Example C17_slots_only_difference :
+  let i := {| has_setstate := false; has_dict := false |} in
+  pickle_apply i (SDict true) = [AttrError] /\ yaml_apply i (SDict true) = [SetAttrs] /\
+  pickle_apply i (SPair DEmpty true) = [AttrError] /\ yaml_apply i (SPair DEmpty true) = [SetAttrs] /\
+  pickle_apply i (SPair DNone true) = [SetAttrs] /\ yaml_apply i (SPair DNone true) = [SetAttrs].
+Proof. exact l_slots_only_difference. Qed.
 
 (* PARTIAL: the Python object protocol itself (__reduce_ex__, copyreg, __new__/__setstate__/__dict__ semantics, sharing and cycles) is modelled abstractly, not verified;
    the model is tied to the code by the protocol correspondence (observed __new__/__init__/__setstate__/extend/__setitem__ calls of an instrumented class for every reduce
